@@ -354,6 +354,28 @@ func runC20(c *eng.Ctx, tier string) {
 						}
 					}
 				})
+				// every field is attempted: each iteration reaches the assignment
+				// (only a failed lookup made for it in Apply may stand in the way;
+				// what happened to an earlier field never does)
+				{
+					filt := eng.EdgeFilter(nil)
+					for _, fc := range fcalls[1:] {
+						filt = eng.AndFilters(filt, eng.AssumeErr(saveErr(fc), true))
+					}
+					isAssign := func(x ssa.Instruction) bool { return x == ssa.Instruction(acall) }
+					hitA, pathA := eng.SearchBlock(fApply, loop.Body, filt, isAssign, func(x ssa.Instruction) bool {
+						return x.Block() == loop.Header || eng.IsReturn(x)
+					})
+					if len(loop.Body.Instrs) > 0 && isAssign(loop.Body.Instrs[0]) {
+						hitA = nil
+					}
+					c.Check(hitA == nil, "R-C20-3", fApply, acall.Pos(), "attempt of every field: "+eng.CallStr(&acall.Call), "each iteration of Apply reaches the assignment of its field (a failure on one field does not prevent the others from being filled)", func() string {
+						if hitA == nil {
+							return ""
+						}
+						return "the next field is taken without the assignment: " + p.PathStr(pathA)
+					}())
+				}
 				for _, fc := range fcalls {
 					fc := fc
 					ev := saveErr(fc)
@@ -440,7 +462,11 @@ func runC20(c *eng.Ctx, tier string) {
 
 	c20Types(c, parse, apply)
 	c20NoSharedState(c, []*ssa.Function{parse, apply, fApply, fSecrets, p.Func(setecPkg, "ParseFields"), anchor(p, setecPkg, "checkUnmarshal")})
-	c20Verb(c, parse)
+	if unit, _ := c20FieldUnit(parse); unit != nil {
+		c20Verb(c, unit)
+	} else {
+		c20Verb(c, parse)
+	}
 	// a Secret-typed field (and every later Apply) reads the entry currently stored under its name
 	handleBoundToName(c, "R-C20-8")
 	c20EveryTaggedField(c, parse)
@@ -550,6 +576,14 @@ func runC20(c *eng.Ctx, tier string) {
 // c20Types: R-C20-4 and R-C20-6.
 func c20Types(c *eng.Ctx, parse, apply *ssa.Function) {
 	p := c.P
+	// (the per-field logic may live in a helper parseFields calls for every
+	// visible field: the rules on that logic are then decided there, and
+	// "recording the field" is the helper's "use it" return)
+	pf := parse
+	unit, ucall := c20FieldUnit(parse)
+	if ucall != nil {
+		pf = unit
+	}
 	// comparisons `X.field == <type sentinel>` in f or in a helper it calls
 	// (the operand then reaches the helper as its parameter); the value is
 	// the comparison itself (it may be branched on, or combined with ||)
@@ -631,7 +665,7 @@ func c20Types(c *eng.Ctx, parse, apply *ssa.Function) {
 		// start where the plain-type decision starts: the first branch on a
 		// type comparison, or on a helper holding the comparisons
 		var first *ssa.BasicBlock
-		for _, b := range parse.Blocks {
+		for _, b := range pf.Blocks {
 			ifi, ok := b.Instrs[len(b.Instrs)-1].(*ssa.If)
 			if !ok {
 				continue
@@ -658,8 +692,11 @@ func c20Types(c *eng.Ctx, parse, apply *ssa.Function) {
 			return
 		}
 		last := first.Instrs[len(first.Instrs)-1]
-		hit, path := eng.SearchBlock(parse, first, allFalse, nil, func(x ssa.Instruction) bool {
+		hit, path := eng.SearchBlock(pf, first, allFalse, nil, func(x ssa.Instruction) bool {
 			// reaching the recording of the field (append to the result) or the next field without an error
+			if ucall != nil && unitRecords(unit, x) {
+				return true
+			}
 			if args, ok := eng.BuiltinCall(x, "append"); ok {
 				if sl, isSl := args[0].Type().Underlying().(*types.Slice); isSl && eng.IsNamed(sl.Elem(), setecPkg, "fieldInfo") {
 					return true
@@ -676,14 +713,20 @@ func c20Types(c *eng.Ctx, parse, apply *ssa.Function) {
 		}())
 	}
 	// untagged fields are never recorded: the append of a fieldInfo is edge-dominated by the ok edge of the tag lookup
-	eng.Instrs(parse, func(in ssa.Instruction) {
-		args, ok := eng.BuiltinCall(in, "append")
-		if !ok {
-			return
-		}
-		sl, isSl := args[0].Type().Underlying().(*types.Slice)
-		if !isSl || !eng.IsNamed(sl.Elem(), setecPkg, "fieldInfo") {
-			return
+	eng.Instrs(pf, func(in ssa.Instruction) {
+		if ucall != nil {
+			if !unitRecords(unit, in) {
+				return
+			}
+		} else {
+			args, ok := eng.BuiltinCall(in, "append")
+			if !ok {
+				return
+			}
+			sl, isSl := args[0].Type().Underlying().(*types.Slice)
+			if !isSl || !eng.IsNamed(sl.Elem(), setecPkg, "fieldInfo") {
+				return
+			}
 		}
 		okk := false
 		for _, cond := range eng.FactsAt(in) {
@@ -701,7 +744,7 @@ func c20Types(c *eng.Ctx, parse, apply *ssa.Function) {
 	})
 	// empty tag name rejected before the field is recorded; pointer-to-struct test first; ErrNoFields
 	var emptyIf *ssa.If
-	eng.Instrs(parse, func(in ssa.Instruction) {
+	eng.Instrs(pf, func(in ssa.Instruction) {
 		ifi, ok := in.(*ssa.If)
 		if !ok {
 			return
@@ -716,14 +759,14 @@ func c20Types(c *eng.Ctx, parse, apply *ssa.Function) {
 	okEmpty := false
 	if emptyIf != nil {
 		succ := emptyIf.Block().Succs[0]
-		if r, isR := succ.Instrs[len(succ.Instrs)-1].(*ssa.Return); isR && nonNilAt(eng.RetVals(r)[1], eng.FactsAt(r)) == eng.Yes {
+		if r, isR := succ.Instrs[len(succ.Instrs)-1].(*ssa.Return); isR && errResultIndex(pf) >= 0 && nonNilAt(eng.RetVals(r)[errResultIndex(pf)], eng.FactsAt(r)) == eng.Yes {
 			okEmpty = true
 		}
 	}
 	c.Check(okEmpty, "R-C20-4", parse, parse.Pos(), "empty secret name in a tag", "rejected with an error", "")
 	// reflective accesses dominated by the kind test
 	var kindFacts int
-	eng.Instrs(parse, func(in ssa.Instruction) {
+	eng.InstrsDeep(parse, func(_ *ssa.Function, in ssa.Instruction) {
 		call, ok := in.(*ssa.Call)
 		if !ok {
 			return
@@ -738,7 +781,7 @@ func c20Types(c *eng.Ctx, parse, apply *ssa.Function) {
 			return
 		}
 		okk := 0
-		for _, cond := range eng.FactsAt(in) {
+		for _, cond := range eng.FactsX(in) {
 			op, x, y, isCmp := cond.Cmp()
 			if !isCmp || op != token.EQL {
 				continue
@@ -955,6 +998,10 @@ func c20Verb(c *eng.Ctx, parse *ssa.Function) {
 func c20EveryTaggedField(c *eng.Ctx, parse *ssa.Function) {
 	p := c.P
 	if parse == nil {
+		return
+	}
+	if unit, ucall := c20FieldUnit(parse); ucall != nil {
+		c20UnitProtocol(c, parse, unit, ucall)
 		return
 	}
 	var loop *eng.RangeLoop
@@ -1179,4 +1226,223 @@ func errResultIndexOfCall(call *ssa.Call) int {
 		}
 	}
 	return -1
+}
+
+// c20FieldUnit: the function holding the per-field logic of parseFields:
+// parseFields itself, or the helper it calls for every visible field (the
+// function containing the tag lookup).  call is the call of that helper in
+// parse (nil when the logic is in parse itself).
+func c20FieldUnit(parse *ssa.Function) (unit *ssa.Function, call *ssa.Call) {
+	unit = parse
+	if parse == nil {
+		return nil, nil
+	}
+	eng.InstrsDeep(parse, func(g *ssa.Function, in ssa.Instruction) {
+		if cl, ok := in.(*ssa.Call); ok && eng.CalleeIs(&cl.Call, "reflect", "StructTag.Lookup") {
+			unit = g
+		}
+	})
+	if unit == parse {
+		return parse, nil
+	}
+	eng.Instrs(parse, func(in ssa.Instruction) {
+		if cl, ok := in.(*ssa.Call); ok && eng.Callee(&cl.Call) == unit {
+			call = cl
+		}
+	})
+	if call == nil || len(eng.StaticCallSites(unit)) != 1 {
+		return parse, nil
+	}
+	return unit, call
+}
+
+// unitResults: the indices of the "use it" flag and of the error among the
+// results of a per-field helper (fieldInfo, bool, error); -1 if absent.
+func unitResults(unit *ssa.Function) (okIdx, errIdx int) {
+	okIdx, errIdx = -1, -1
+	res := unit.Signature.Results()
+	for i := 0; i < res.Len(); i++ {
+		if b, isB := res.At(i).Type().Underlying().(*types.Basic); isB && b.Kind() == types.Bool {
+			okIdx = i
+		}
+		if eng.IsErrorType(res.At(i).Type()) {
+			errIdx = i
+		}
+	}
+	return
+}
+
+// unitRecords: r is a return of the per-field helper telling its caller to
+// record the field (flag not constant false, error possibly nil).
+func unitRecords(unit *ssa.Function, x ssa.Instruction) bool {
+	r, isR := x.(*ssa.Return)
+	if !isR {
+		return false
+	}
+	okIdx, errIdx := unitResults(unit)
+	rv := eng.RetVals(r)
+	if okIdx < 0 || errIdx < 0 || okIdx >= len(rv) || errIdx >= len(rv) {
+		return false
+	}
+	if k, isK := eng.Origin(rv[okIdx]).(*ssa.Const); isK && k.Value != nil && k.Value.String() == "false" {
+		return false
+	}
+	return nonNilAt(rv[errIdx], eng.FactsAt(r)) != eng.Yes
+}
+
+// c20UnitProtocol: R-C20-9 for a per-field helper.  In parse the helper is
+// called for every visible field; its error makes parse fail; a field it
+// says to use is appended before the next one is taken.  In the helper the
+// tag is looked up on every path, and past the present edge every return
+// records the field or fails.
+func c20UnitProtocol(c *eng.Ctx, parse, unit *ssa.Function, call *ssa.Call) {
+	p := c.P
+	var loop *eng.RangeLoop
+	for _, rl := range eng.RangeLoops(parse) {
+		if vc, _ := eng.TupleCall(rl.Slice); vc != nil && eng.CalleeIs(&vc.Call, "reflect", "VisibleFields") {
+			r2 := rl
+			loop = &r2
+		}
+	}
+	okIdx, errIdx := unitResults(unit)
+	if loop == nil || !loop.InLoop(call.Block()) || okIdx < 0 || errIdx < 0 {
+		c.Undecided("R-C20-9", parse, parse.Pos(), "loop over reflect.VisibleFields calling the per-field helper "+eng.FName(unit), "not found in this form")
+		return
+	}
+	// the element handed to the helper is the loop's
+	elemOK := false
+	for _, a := range call.Call.Args {
+		if loop.ElemOf(a) {
+			elemOK = true
+		}
+	}
+	c.Check(elemOK, "R-C20-9", parse, call.Pos(), eng.CallStr(&call.Call), "the per-field helper is given the visible field of this iteration", "")
+	atHeader := func(x ssa.Instruction) bool { return x.Block() == loop.Header }
+	isCall := func(x ssa.Instruction) bool { return x == ssa.Instruction(call) }
+	hit, path := eng.SearchBlock(parse, loop.Body, nil, isCall, atHeader)
+	if len(loop.Body.Instrs) > 0 && isCall(loop.Body.Instrs[0]) {
+		hit = nil
+	}
+	var tag *ssa.Call
+	eng.Instrs(unit, func(in ssa.Instruction) {
+		if cl, ok := in.(*ssa.Call); ok && eng.CalleeIs(&cl.Call, "reflect", "StructTag.Lookup") {
+			if k, isK := eng.ConstString(cl.Call.Args[len(cl.Call.Args)-1]); isK && k == "setec" {
+				tag = cl
+			}
+		}
+	})
+	if tag == nil {
+		c.Undecided("R-C20-9", unit, unit.Pos(), "Tag.Lookup(\"setec\") in "+eng.FName(unit), "not found")
+		return
+	}
+	isTag := func(x ssa.Instruction) bool { return x == ssa.Instruction(tag) }
+	if hit == nil {
+		hit, path = eng.Search(unit, nil, nil, isTag, eng.IsReturn)
+	}
+	c.Check(hit == nil, "R-C20-9", parse, tag.Pos(), "fields examined by parseFields", "every visible field has its setec tag looked up (embedded, unexported-looking or oddly typed fields included: a tagged field is never passed over unseen)", func() string {
+		if hit == nil {
+			return ""
+		}
+		return "a field can be skipped before its tag is read: " + p.PathStr(path)
+	}())
+	var present ssa.Value
+	for _, r := range *tag.Referrers() {
+		if ex, ok := r.(*ssa.Extract); ok && ex.Index == 1 {
+			present = ex
+		}
+	}
+	if present == nil {
+		c.Bad("R-C20-9", unit, tag.Pos(), eng.CallStr(&tag.Call), "the presence result of the tag lookup decides whether the field is plumbed", "the ok result is unused")
+		return
+	}
+	// in the helper: present => record or fail
+	hit2, path2 := eng.Search(unit, tag, eng.AssumeBool(present, true), nil, func(x ssa.Instruction) bool {
+		r, isR := x.(*ssa.Return)
+		if !isR {
+			return false
+		}
+		if unitRecords(unit, r) {
+			return false
+		}
+		return nonNilAt(eng.RetVals(r)[errIdx], eng.FactsAt(r)) != eng.Yes
+	})
+	// in parse: the helper's error is parse's failure; "use it" is appended
+	var okv, errv, fiv ssa.Value
+	for _, r := range *call.Referrers() {
+		if ex, ok := r.(*ssa.Extract); ok {
+			switch ex.Index {
+			case okIdx:
+				okv = ex
+			case errIdx:
+				errv = ex
+			default:
+				fiv = ex
+			}
+		}
+	}
+	if hit2 == nil && (okv == nil || errv == nil || fiv == nil) {
+		c.Bad("R-C20-9", parse, call.Pos(), eng.CallStr(&call.Call), "all three results of the per-field helper are used", "a result is dropped")
+		return
+	}
+	isAppend := func(x ssa.Instruction) bool {
+		args, ok := eng.BuiltinCall(x, "append")
+		if !ok || len(args) != 2 {
+			return false
+		}
+		sl, _ := args[0].Type().Underlying().(*types.Slice)
+		if sl == nil || !eng.IsNamed(sl.Elem(), setecPkg, "fieldInfo") {
+			return false
+		}
+		pa := eng.Path{Blocks: []*ssa.BasicBlock{x.Block()}}
+		elems, _ := pa.SliceElems(args[1])
+		for _, e := range elems {
+			if eng.Origin(e) == fiv {
+				return true
+			}
+		}
+		return false
+	}
+	if hit2 == nil {
+		hit2, path2 = eng.Search(parse, call, eng.AndFilters(eng.AssumeErr(errv, true), eng.AssumeBool(okv, true)), isAppend, func(x ssa.Instruction) bool {
+			return atHeader(x) || eng.IsReturn(x)
+		})
+	}
+	c.Check(hit2 == nil, "R-C20-9", parse, tag.Pos(), "tagged fields in parseFields", "a field whose tag is present is appended to the result or makes parseFields return (an error): it is never silently dropped", func() string {
+		if hit2 == nil {
+			return ""
+		}
+		return "the next field is reached with neither: " + p.PathStr(path2)
+	}())
+	pei := errResultIndex(parse)
+	hit3, path3 := eng.Search(parse, call, eng.AssumeErr(errv, false), nil, func(x ssa.Instruction) bool {
+		if atHeader(x) {
+			return true
+		}
+		r, isR := x.(*ssa.Return)
+		return isR && pei >= 0 && nonNilAt(eng.RetVals(r)[pei], eng.FactsAt(r)) != eng.Yes && !eng.Same(eng.RetVals(r)[pei], errv)
+	})
+	c.Check(hit3 == nil, "R-C20-9", parse, call.Pos(), "error of "+eng.CallStr(&call.Call), "a field the helper rejects makes parseFields fail", func() string {
+		if hit3 == nil {
+			return ""
+		}
+		return "parsing goes on or succeeds: " + p.PathStr(path3)
+	}())
+	// ... and nothing else is recorded: every append is past "use it"
+	eng.Instrs(parse, func(in ssa.Instruction) {
+		args, ok := eng.BuiltinCall(in, "append")
+		if !ok || len(args) == 0 {
+			return
+		}
+		sl, _ := args[0].Type().Underlying().(*types.Slice)
+		if sl == nil || !eng.IsNamed(sl.Elem(), setecPkg, "fieldInfo") {
+			return
+		}
+		okk := false
+		for _, cond := range eng.FactsAt(in) {
+			if v, truth, isB := cond.Bool(); isB && truth && eng.Origin(v) == okv {
+				okk = true
+			}
+		}
+		c.Check(okk && isAppend(in), "R-C20-4", parse, in.Pos(), "recording of a field in parseFields", "only what the per-field helper says to use is recorded", "holding: "+eng.FactsString(in))
+	})
 }
